@@ -28,7 +28,7 @@ T = {
          "caught at the first attempt"),
  'C08': ("a blocked acquirer proceeds once enough permits were released: the wake-up loop of release(n) is bounded by the current value, which woken acquirers decrement while the lock is dropped between notifications, so fewer than n waiters are woken",
          "release(n) with n >= 2 and several blocked acquirers, one of which consumes its permit before the loop ends",
-         "caught at the first attempt, as a broken correspondence only (the real log leaves the model; no monitor saw a stuck acquirer within the generated histories: VIOLATION ... no-failing-input-found)"),
+         "caught at the first attempt as a broken correspondence only (the real log left the model, no generated history ended with a stuck acquirer: VIOLATION ... no-failing-input-found, seeded/C08e/detect-C08.log); the directed family `k blocked acquirers, then one release(n >= k)` was added and gives the concrete failing input"),
  'C09': ("the barrier is reusable across phases: wait() compares the 8-bit phase with <= instead of ==, so at the wrap 254 -> 0 every waiter of the 128th phase polls for ever",
          "128 phases on one barrier",
          "caught at the first attempt"),
@@ -83,9 +83,6 @@ for p, (breaks, needs, how) in T.items():
                 msg = m.group(1).split(' | ')[0][:260]
                 break
     nf = ''
-    for f in logs:
-        if 'no-failing-input-found' in open(os.path.join(d, f)).read():
-            nf = ' (no-failing-input-found)'
     meta = {
         'property': p,
         'source': SRC.format(p=p),
